@@ -5,6 +5,7 @@
 From Coq Require Import List Arith Lia Bool String.
 Import ListNotations.
 From SP Require Import Skel Gen Expected Slots Slots7 SlotsTop.
+From SP Require NetA Inv NetSlots.
 
 (* T1: the two slot functions have exactly the modelled shape, and Task.Execute brackets the command with them *)
 Theorem C06_code_conforms :
@@ -38,8 +39,19 @@ Theorem C06_nonvacuous :
   exists s', run (init 3 [2; 1; 2]) [0; 0; 0; 0; 0; 1; 1; 1; 1] = Some s' /\ tsum executing (tasks s') = 3.
 Proof. eexists. split; vm_compute; reflexivity. Qed.
 
+(* the same inside a running workflow: tasks are not given in advance but spawned by the processes of the network as
+   their inputs arrive (NetSlots: the process network composed with the slot machine).  In every reachable state of the
+   product -- every network, every stream length, every schedule -- the executing cores sum to at most the maximum *)
+Theorem C06_in_workflow : forall (p : NetSlots.pcfg) (len : nat -> nat),
+  Inv.wf (NetSlots.ncfg p) len -> (forall v, v < NetA.nn (NetSlots.ncfg p) -> NetSlots.pcores p v <= NetSlots.pcap p) ->
+  forall (l : list NetSlots.pact) (s : NetSlots.pst),
+  NetSlots.prun p (NetSlots.pinit p) l = Some s ->
+  tsum executing (tasks (NetSlots.sl s)) <= NetSlots.pcap p.
+Proof. exact NetSlots.product_slots_never_exceeded. Qed.
+
 Print Assumptions C06_code_conforms.
 Print Assumptions C06_order_facts.
 Print Assumptions C06_slots_never_exceeded.
 Print Assumptions C06_invariant_form.
 Print Assumptions C06_nonvacuous.
+Print Assumptions C06_in_workflow.
